@@ -27,7 +27,7 @@ ASSUMPTIONS = ['reference for UTF-8/16/32: Unicode 15 Table 3-7, D91, D92 (accep
                'rejection = UTFDataFormatException/TranscodingException, or (only for a source that ends inside a sequence) the sequence left uneaten with no character produced',
                'document level: only combinations for which XML 1.0 4.3.3 / Appendix F is unambiguous']
 BUDGET = {'quick': 700, 'thorough': 24000}        # Hypothesis cases per worker (split lane + document lane); enumerations are fixed by the tier
-WALLCAP = {'quick': 900, 'thorough': 3000}
+WALLCAP = {'quick': 1800, 'thorough': 5400}    # watchdog only (3x the expected time on a loaded machine)
 
 ASAN_TUNED = {'ASAN_OPTIONS': 'detect_leaks=1:abort_on_error=0:exitcode=86:allocator_may_return_null=1:detect_stack_use_after_return=0:symbolize=1:'
                               'handle_segv=1:quarantine_size_mb=1:thread_local_quarantine_size_kb=64:malloc_context_size=2'}
@@ -54,6 +54,10 @@ KNOWN = {
     'C05-icu-decode-substitutes-illegal': {'lane': 'raw-expect', 'tc': 'gb18030', 'op': 'from', 'src': '81308120', 'expect_exc': True},
     'C05-icu-encode-small-buffer-throw': {'lane': 'split', 'tc': 'Shift_JIS', 'dir': 'to', 'cps': '3042,3044,41', 'tail': '0', 'm': '1', 'k': '3'},
     'C05-icu-encode-small-buffer-throw#tostr': {'lane': 'split', 'tc': 'gb18030', 'dir': 'to', 'cps': '80,80,80', 'tail': '0'},
+    'C05-ucs4-decode-no-range-check#doc': {'level': 'doc', 'api': 'sax2', 'enc': 'UCS-4LE', 'bom': False, 'declname': 'UCS-4LE', 'expect': 'error',
+        'why': 'the 32-bit unit 0x04010000 is not a Unicode scalar value', 'doc_b64': 'PAAAAD8AAAB4AAAAbQAAAGwAAAAgAAAAdgAAAGUAAAByAAAAcwAAAGkAAABvAAAAbgAAAD0AAAAiAAAAMQAAAC4AAAAwAAAAIgAAACAAAABlAAAAbgAAAGMAAABvAAAAZAAAAGkAAABuAAAAZwAAAD0AAAAiAAAAVQAAAEMAAABTAAAALQAAADQAAABMAAAARQAAACIAAAA/AAAAPgAAADwAAABhAAAAPgAAAAAAAQQ8AAAALwAAAGEAAAA+AAAA', 'utf8_b64': 'PGE+WDwvYT4='},
+    'C05-icu-decode-substitutes-illegal#doc': {'level': 'doc', 'api': 'sax2', 'enc': 'gb18030', 'bom': False, 'declname': 'gb18030', 'expect': 'error',
+        'why': 'the byte sequence 81 30 81 20 is illegal in gb18030', 'doc_b64': 'PD94bWwgdmVyc2lvbj0iMS4wIiBlbmNvZGluZz0iZ2IxODAzMCI/PjxhPoEwgSA8L2E+', 'utf8_b64': 'PGE+WDwvYT4='},
 }
 SKIP = ','.join(sorted(k for k in KNOWN if '#' not in k))
 
@@ -313,7 +317,7 @@ def run_doc(case, ex):
     if errs0: return True, 'baseline rendering not clean (generator problem, case ignored): %r' % errs0[:2]
     errs = [l for l in a if l.startswith('ERR') or l.startswith('EXC')]
     if case['expect'] == 'error':
-        if not errs: return False, 'declaration %r contradicts the %s bytes (BOM=%s) but no error was reported; events: %r' % (case['declname'], case['enc'], case['bom'], a[:6])
+        if not errs: return False, '%s, but no error was reported; events: %r' % (case.get('why') or 'declaration %r contradicts the %s bytes (BOM=%s)' % (case['declname'], case['enc'], case['bom']), a[:6])
         return True, 'ok'
     if a != b:
         i = next((k for k in range(min(len(a), len(b))) if a[k] != b[k]), min(len(a), len(b)))
